@@ -137,13 +137,13 @@ def run_linsolve_case(r, what, key, M, b, kw_src='', lda=True, tol=TOL, finding=
     return m
 
 
-@bound('LinSolve: 13 matrix classes (real: general, SPD, negative definite, symmetric indefinite, banded, upper/lower triangular, diagonal; complex: '
-       'general, symmetric, Hermitian PD, Hermitian indefinite, diagonal) x containers {ndarray C/F order, csc, csr, coo, csr_array, dia} x '
-       'n in {1,2,3,5,9} [quick] / {1..6,9,14,24} [thorough] x 11 real rhs kinds (vector, (n,1), (n,3), zero column, dependent columns, zero, unit, '
+@bound('LinSolve: 18 matrix classes (real: general, SPD, negative definite, symmetric indefinite, banded, upper/lower triangular, diagonal, row-permuted (pivoting needed), '
+       'symmetric with zero diagonal; complex: general, symmetric, Hermitian PD, Hermitian indefinite, diagonal, row-permuted, Hermitian / symmetric with zero diagonal) x containers {ndarray C/F order, csc, csr, coo, csr_array, dia} x '
+       'n in {1,2,4,8} [quick] / {1..6,9,14,24} [thorough] x 11 real rhs kinds (vector, (n,1), (n,3), zero column, dependent columns, zero, unit, '
        'int64, float32, F-order, strided) + 2 complex rhs kinds where documented x LDAS on/off; reference np.linalg.solve')
 @lazy
 def linsolve_classes(r, tier, seed):
-    ns = sizes(tier, (1, 2, 3, 5, 9), (1, 2, 3, 4, 5, 6, 9, 14, 24))
+    ns = sizes(tier, (1, 2, 4, 8), (1, 2, 3, 4, 5, 6, 9, 14, 24))
     for n in ns:
         for ik, kind in enumerate(REAL_CLASSES + CPLX_CLASSES):
             rng = np.random.default_rng(seed + 1000 * n + ik)
@@ -156,8 +156,8 @@ def linsolve_classes(r, tier, seed):
                 cplx_ok = not (cname in SPARSE and not np.iscomplexobj(A))   # documented TypeError otherwise (checked in linsolve_typeerror)
                 for bname, b in rhs_set(n, rng, cplx_ok):
                     for lda in (True, False):
-                        if tier == 'quick' and ((not lda and bname in ('col1', 'unit_last', 'f32', 'blk_F', 'blk_strided', 'cblk', 'zero', 'int'))
-                                                or (minor and bname not in ('vec', 'blk3', 'blk_zero_col', 'int', 'cvec'))):
+                        if tier == 'quick' and ((not lda and bname not in ('vec', 'blk3', 'cvec'))
+                                                or (minor and bname not in ('vec', 'blk3', 'blk_zero_col', 'int', 'cvec')) or bname in ('unit_last', 'blk_F')):
                             continue
                         run_linsolve_case(r, 'LinSolve', (kind, cname, n, bname, lda), M, b, '', lda)
 
@@ -187,7 +187,7 @@ def linsolve_decoupled(r, tier, seed):
             rng = np.random.default_rng(seed + 77 * n + ik)
             A0 = gen_matrix(kind, n, rng)
             for (sname, idx), val, how in itertools.product(sets.items(), (1.0, 2.5, -3.0), ('both', 'row', 'col')):
-                if tier == 'quick' and (how != 'both') and (val != 2.5 or sname in ('all', 'first')):
+                if tier == 'quick' and (val == -3.0 or sname == 'first' or ((how != 'both') and (val != 2.5 or sname == 'all'))):
                     continue
                 A = decouple(A0, idx, val, how)
                 rest = [i for i in range(n) if i not in idx]
@@ -252,11 +252,11 @@ def flag_sources(kind):
 
 @bound('LinSolve with every solver override available in this environment (DenseQR, DenseLU, DenseLDL, DenseCholesky incl. its LDL fallback on a negative '
        'definite matrix, Diagonal, SparseLU, pre-wrapped LDAWrapper, CG plain / DampedJacobi / SOR / ILU) on the classes each solver is documented for, '
-       'and the hermitian= / symmetric= flags set to the true class; n in {1,3,6} [quick] / {1,2,3,4,8,15} [thorough]; containers ndarray, csc, csr; rhs '
+       'and the hermitian= / symmetric= flags set to the true class; n in {1,4} [quick] / {1,2,3,4,8,15} [thorough]; containers ndarray, csc, csr; rhs '
        'vector, (n,3) block, complex vector where documented; LDAS on/off')
 @lazy
 def linsolve_overrides(r, tier, seed):
-    ns = sizes(tier, (1, 3, 6), (1, 2, 3, 4, 8, 15))
+    ns = sizes(tier, (1, 4), (1, 2, 3, 4, 8, 15))
     for n in ns:
         for ik, kind in enumerate(REAL_CLASSES + CPLX_CLASSES):
             rng = np.random.default_rng(seed + 31 * n + ik)
@@ -294,6 +294,22 @@ def linsolve_cg_block(r, tier, seed):
                 for lda in (True, False):
                     for bname, b in (('eigvec+generic block', B), ('generic+eigvec block', B[:, ::-1].copy()), ('vector', B[:, 1].copy())):
                         run_linsolve_case(r, f'LinSolve({kw_src})', (n, cname, kw_src, lda, bname), CONTAINERS[cname](A), b, kw_src, lda, 1e-8)
+
+
+@bound('LinSolve with solver=CG(...) and a right-hand side that is zero or has a zero column (vector, (n,2) zero block, (n,3) block with one zero column); SPD ndarray / csc, n in {1,5}; '
+       'LDAS on (must hold) and off (use_lda_solver=False: CG divides by |b| = 0)', finding='C07-cg-zero-rhs')
+@lazy
+def linsolve_cg_zero_rhs(r, tier, seed):
+    for n in (1, 5):
+        rng = np.random.default_rng(seed + n)
+        A = gen_matrix('spd', n, rng)
+        B = rng.uniform(-1, 1, (n, 3))
+        B[:, 1] = 0
+        for cname in ('dense', 'csc'):
+            for bname, b in (('zero vector', np.zeros(n)), ('zero block', np.zeros((n, 2))), ('block with a zero column', B)):
+                for lda in (True, False):
+                    run_linsolve_case(r, 'LinSolve(solver=CG(tol=1e-12)), zero rhs column', (n, cname, bname, lda), CONTAINERS[cname](A), b, "solver=CG(tol=1e-12)", lda, 1e-8,
+                                      finding=None if lda else 'C07-cg-zero-rhs')
 
 
 @bound('the documented TypeError: raised for every real sparse container x complex rhs (vector, block), n in {1,3,6}; and NOT raised for real dense x '
@@ -419,36 +435,39 @@ def linsolve_histories(r, tier, seed):
                         r.check(False, f'LinSolve history [{cn}]: response() raised', (cn, cname, n, lda), f'{type(e).__name__}: {str(e)[:160]}', replay_code=HEAD + HELP + src)
 
 
-@bound('ONE LinSolve object, rhs width changes between calls: (n,3) block -> vector, (n,3) -> (n,2), (n,2) -> (n,3); ndarray and csc; n in {3,6}; LDAS on/off',
-       finding='C07-linsolve-rhs-width-change')
+@bound('ONE LinSolve object, rhs width changes between calls: (n,3) block -> vector, (n,3) -> (n,2), (n,2) -> (n,3), and vector -> (n,2) with the CG override; ndarray and csc; n in {3,6}; '
+       'LDAS on/off. Expected to fail whenever the previous solution (passed on as x0) is used: LDAS on, or an iterative solver.', finding='C07-linsolve-rhs-width-change')
 @lazy
 def linsolve_rhs_width_history(r, tier, seed):
     for n in (3, 6):
         for cname in ('dense', 'csc'):
             for lda in (True, False):
                 rng = np.random.default_rng(seed + n)
-                A = gen_matrix('gen', n, rng)
-                for shapes in (((n, 3), (n,)), ((n, 3), (n, 2)), ((n, 2), (n, 3))):
-                    bs = [rng.uniform(-1, 1, s) for s in shapes]
-                    src = (f"A={lit(A)}\nbs=[{', '.join(lit(b) for b in bs)}]\nconv={'np.array' if cname == 'dense' else 'sps.csc_matrix'}\n"
-                           f"sb=pym.Signal('b',bs[0]); m=pym.LinSolve([pym.Signal('A',conv(A)),sb])\n" + ("" if lda else "m.use_lda_solver=False\n") +
-                           f"for b in bs:\n    sb.state=b; m.response(); x=m.sig_out[0].state; xr=np.linalg.solve(A,b)\n    assert x.shape==b.shape and mx(x-xr)<={TOL}*max(1,mx(xr))\n")
-                    key = (cname, n, lda, shapes)
-                    r.case(key)
-                    # the linear-dependency-aware wrapper receives the previous solution as x0 and indexes it with the new column mask
-                    fid = 'C07-linsolve-rhs-width-change' if lda else None
-                    try:
-                        sb = pym.Signal('b', bs[0])
-                        m = pym.LinSolve([pym.Signal('A', CONTAINERS[cname](A)), sb])
-                        if not lda:
-                            m.use_lda_solver = False
-                        for i, b in enumerate(bs):
-                            sb.state = b
-                            m.response()
-                            verify_x(r, f'LinSolve history [rhs {shapes[0]} -> {shapes[1]}, call {i}]', key, A, b, m.sig_out[0].state, HEAD + HELP + src, finding=fid)
-                    except Exception as e:
-                        r.check(False, f'LinSolve history [rhs {shapes[0]} -> {shapes[1]}]: second response() raised', key, f'{type(e).__name__}: {str(e)[:160]}', 'a solution',
-                                replay_code=HEAD + HELP + src, finding=fid)
+                for kw_src, kind, shape_list in (('', 'gen', (((n, 3), (n,)), ((n, 3), (n, 2)), ((n, 2), (n, 3)))),
+                                                 ('solver=CG(tol=1e-13)', 'spd', (((n,), (n, 2)), ((n, 2), (n,)), ((n, 2), (n, 3))))):
+                    A = gen_matrix(kind, n, rng)
+                    tol = 1e-8 if kw_src else TOL
+                    for shapes in shape_list:
+                        bs = [rng.uniform(-1, 1, s) for s in shapes]
+                        src = (f"A={lit(A)}\nbs=[{', '.join(lit(b) for b in bs)}]\nconv={'np.array' if cname == 'dense' else 'sps.csc_matrix'}\n"
+                               f"sb=pym.Signal('b',bs[0]); m=pym.LinSolve([pym.Signal('A',conv(A)),sb]{', ' + kw_src if kw_src else ''})\n" + ("" if lda else "m.use_lda_solver=False\n") +
+                               f"for b in bs:\n    sb.state=b; m.response(); x=m.sig_out[0].state; xr=np.linalg.solve(A,b)\n    assert x.shape==b.shape and mx(x-xr)<={tol}*max(1,mx(xr))\n")
+                        key = (cname, n, lda, shapes, kw_src)
+                        r.case(key)
+                        # the previous solution is passed on as x0: the linear-dependency-aware wrapper indexes it with the new column mask, CG starts from it
+                        fid = 'C07-linsolve-rhs-width-change' if (lda or kw_src) else None
+                        try:
+                            sb = pym.Signal('b', bs[0])
+                            m = pym.LinSolve([pym.Signal('A', CONTAINERS[cname](A)), sb], **eval(f"dict({kw_src})", dict(NS)))
+                            if not lda:
+                                m.use_lda_solver = False
+                            for i, b in enumerate(bs):
+                                sb.state = b
+                                m.response()
+                                verify_x(r, f'LinSolve history [rhs {shapes[0]} -> {shapes[1]}, call {i}] {kw_src}', key, A, b, m.sig_out[0].state, HEAD + HELP + src, tol, finding=fid)
+                        except Exception as e:
+                            r.check(False, f'LinSolve history [rhs {shapes[0]} -> {shapes[1]}] {kw_src}: second response() raised', key, f'{type(e).__name__}: {str(e)[:160]}', 'a solution',
+                                    replay_code=HEAD + HELP + src, finding=fid)
 
 
 @bound('ONE LinSolve object, the matrix class changes between calls to one the first-chosen solver does not support: ndarray SPD -> general, '
@@ -479,7 +498,7 @@ def linsolve_class_change_history(r, tier, seed):
 
 
 # ------------------------------------------------------------------------------------------------------------------- Inverse
-@bound('Inverse: all 13 classes as ndarray (C order, F order, strided view), n in {1,2,3,5,8} [quick] / {1..6,8,13,21} [thorough]; A B = I, B A = I, reference '
+@bound('Inverse: all 18 classes as ndarray (C order, F order, strided view), n in {1,2,3,5,8} [quick] / {1..6,8,13,21} [thorough]; A B = I, B A = I, reference '
        'np.linalg.solve(A, I), dtype, operand unchanged; histories on one object (new matrix, caller overwrites B, repeat)')
 @lazy
 def inverse(r, tier, seed):
@@ -618,6 +637,8 @@ def soe_partitions(r, tier, seed):
             A = gen_matrix(kind, n, rng)
             for ip, (f, p) in enumerate(partitions_all(n)):
                 for cname in ('csc', 'csr'):
+                    if tier == 'quick' and (ip + ik) % 2 == (cname == 'csr'):
+                        continue
                     give = ('both', 'free', 'prescribed')[(ip + ik + (cname == 'csr')) % 3]
                     kinds = ('vec', 'blk3') if tier == 'quick' else ('vec', 'blk1', 'blk3', 'int', 'zero_xp', 'zero_bf')
                     for rk in kinds:
@@ -723,6 +744,8 @@ def soe_nonsymmetric(r, tier, seed):
             parts = list(partitions_all(n)) if n <= 4 else [(lambda q, k: (q[:k].copy(), q[k:].copy()))(rng.permutation(n), int(rng.integers(1, n))) for _ in range(8)]
             for ip, (f, p) in enumerate(parts):
                 for cname in ('csc', 'csr'):
+                    if tier == 'quick' and (ip + ik) % 2 == (cname == 'csr'):
+                        continue
                     for rk in ('vec', 'blk3'):
                         bf, xp = soe_rhs(rng, f.size, p.size, rk, np.iscomplexobj(A))
                         soe_case(r, 'SystemOfEquations (A != A^T)', (kind, n, ip, cname, rk), CONTAINERS[cname](A), f, p, 'both', bf, xp, nonsym_finding='C07-soe-nonsymmetric')
@@ -908,7 +931,7 @@ def static_condensation_cg(r, tier, seed):
 
 
 CHECKS = [('linsolve_classes', linsolve_classes), ('linsolve_decoupled', linsolve_decoupled), ('linsolve_overrides', linsolve_overrides),
-          ('linsolve_cg_block', linsolve_cg_block), ('linsolve_typeerror', linsolve_typeerror), ('linsolve_histories', linsolve_histories),
+          ('linsolve_cg_block', linsolve_cg_block), ('linsolve_cg_zero_rhs', linsolve_cg_zero_rhs), ('linsolve_typeerror', linsolve_typeerror), ('linsolve_histories', linsolve_histories),
           ('linsolve_rhs_width_history', linsolve_rhs_width_history), ('linsolve_class_change_history', linsolve_class_change_history),
           ('inverse', inverse),
           ('soe_partitions', soe_partitions), ('soe_histories', soe_histories), ('soe_nonsymmetric', soe_nonsymmetric), ('soe_second_call', soe_second_call),
